@@ -40,6 +40,8 @@ def scenario(draw, tier="quick"):
            "update_latency": draw(st.sampled_from(LATS)), "replace_latency": draw(st.sampled_from(LATS))}
     if draw(st.integers(0, 2)) == 0:
         cfg = {"place_latency": 0.12, "cancel_latency": 0.17, "update_latency": 0.15, "replace_latency": 0.28}
+    if draw(st.integers(0, 2)) == 0:
+        cfg["simulated_strategy_isolation"] = False  # the per-instance matching path
     markets = []
     strategies_scripts = []
     for mi in range(nm):
@@ -109,6 +111,8 @@ def check(sc, metamorphic=True):
     lat = {"place": cfg["place_latency"], "cancel": cfg["cancel_latency"], "update": cfg["update_latency"],
            "replace": cfg["replace_latency"]}
     classes = set()
+    if cfg.get("simulated_strategy_isolation") is False:
+        classes.add("isolation-off")
     nt = False
     ups = [r.updates for r in lb.renderers]
     mid = [m["id"] for m in sc["markets"]]
@@ -199,8 +203,8 @@ def check(sc, metamorphic=True):
                     taken = {}
                     limit = snap["price"]
                     for ptm, p, s in snap["matched"]:
-                        if ptm == us[u].pt and p == limit:
-                            continue  # passive fill out of the effective update's own traded volume
+                        if ptm == us[u].pt and (p == limit or us[u].bsp_reconciled):
+                            continue  # passive fill out of the effective update's own traded volume / SP conversion at it
                         taken[p] = round(taken.get(p, 0) + s, 2)
                         if ptm != us[u - 1].pt:
                             raise Violation("arrival-fragment-time", (), "arrival fragment stamped %s, matched book time %s" % (ptm, us[u - 1].pt), sc)
@@ -287,11 +291,34 @@ def check(sc, metamorphic=True):
                         tgt2 = id(lb2.strategies[0].my_orders[pos])
                         f1 = _fills_before(lb, id(tgt), us, j)
                         f2 = _fills_before(lb2, tgt2, us, j)
-                        later_ops = any(e["at"] > res.idx or (e["at"] == res.idx and e["ops"][-1] != res.op) for e in sc["strategies"][0]["script"])
+                        # further scripted requests only matter if they are made before the effective update
+                        j_lim = j if j is not None else 10**9
+                        later_ops = any(res.idx < e["at"] < j_lim or (e["at"] == res.idx and e["ops"][-1] != res.op) for e in sc["strategies"][0]["script"])
                         if f1 != f2 and not later_ops:
-                            raise Violation("in-flight-order-not-fillable-as-before", (kind,), "fills before the effective update %s differ: with request %s, without %s" % (j, f1, f2), sc)
+                            facts = (kind,)
+                            if kind == "update" and _pers_switched_early(lb, id(tgt), res, us, j):
+                                # (recorded as a known finding) BetfairOrder.update switches the order's persistence
+                                # type when the request is MADE; the simulation then lapses / keeps / converts the
+                                # order to SP by the new type although the update has not reached the exchange yet
+                                facts = (kind, "local-persistence-switched-at-request-time")
+                            raise Violation("in-flight-order-not-fillable-as-before", facts, "fills before the effective update %s differ: with request %s, without %s" % (j, f1, f2), sc)
                         classes.add("metamorphic-compared")
     return nt, classes
+
+
+def _pers_switched_early(lb, oid, res, us, j):
+    """True when a callback before the effective update already shows the requested persistence on the order"""
+    want = res.op.get("pers", "PERSIST")
+    for rec in lb.log:
+        ms = _ms(rec["pt"])
+        if ms < us[res.idx].pt:
+            continue
+        if j is not None and ms >= us[j].pt:
+            break
+        for o in rec["orders"]:
+            if o["oid"] == oid and o.get("pers") == want:
+                return True
+    return False
 
 
 def _fills_before(lb, oid, us, j):
@@ -306,12 +333,42 @@ def _fills_before(lb, oid, us, j):
     return out
 
 
+@st.composite
+def inflight_scenario(draw, tier="quick"):
+    """focused on the clause 'an order being cancelled, updated or replaced remains fillable as before': one
+    resting order, trades at / through its price a few tens of ms apart, follow-up requests in between (the C04
+    resting generator), default or drawn latencies, both matching paths (strategy isolation on / off)"""
+    from . import c04
+
+    sc = draw(c04.resting_scenario(tier))
+    cfg = {"place_latency": 0.12, "cancel_latency": 0.17, "update_latency": 0.15, "replace_latency": 0.28}
+    if draw(st.integers(0, 2)) == 0:
+        cfg = {k: draw(st.sampled_from([0.12, 0.17, 0.28, 1.5])) for k in cfg}
+    if draw(st.booleans()):
+        cfg["simulated_strategy_isolation"] = False
+    # (runner removals void pending orders - C09's subject - and are replaced by empty updates here)
+    for st_ in sc["markets"][0]["steps"]:
+        if st_["k"] == "remove":
+            dt_ = st_["dt"]
+            st_.clear()
+            st_.update({"dt": dt_, "k": "book", "rc": []})
+    sc["config"] = cfg
+    sc["event_processing"] = False
+    sc["clients"] = [{"min_bet_validation": False}]
+    return sc
+
+
 def sub_runs(col, budget, seed, tier, shard, nshards):
     run_given(col, scenario(tier), check, budget, seed, tier, "runs")
 
 
+def sub_inflight(col, budget, seed, tier, shard, nshards):
+    run_given(col, inflight_scenario(tier), check, budget, seed, tier, "inflight")
+
+
 def subchecks(tier):
-    return [SubCheck("runs", sub_runs, 3000 if tier == "quick" else 100000)]
+    return [SubCheck("runs", sub_runs, 3000 if tier == "quick" else 100000),
+            SubCheck("inflight", sub_inflight, 1500 if tier == "quick" else 40000)]
 
 
 def replay(c, sub=None):
